@@ -4,8 +4,8 @@ implementation was just shown to agree with (DESIGN §3.2 "invariant bits"). -/
 namespace Taskpool
 
 /-- slot conservation for one pool, against the size it was constructed with -/
-def Pool.slotBit (p : Pool) : Bool :=
-  match p.size0, p.sem.value with
+def Pool.slotBit (p : Pool) (size0 : Cap) : Bool :=
+  match size0, p.sem.value with
   | .fin n, .fin v =>
     v + p.tasks.countP (fun t => !t.released) + p.sem.waiters.countP (fun w => w.st = .granted) == n
   | .inf, .inf => true
@@ -15,6 +15,7 @@ def Pool.phaseBit (p : Pool) : Bool :=
   p.tasks.all fun t => !(t.phase == .created || t.phase == .inWorker || t.phase == .inCancelCb) || !t.released
 
 def invBits (w : World) : String :=
-  String.join (w.pools.map fun p => (if p.slotBit then "1" else "0") ++ (if p.phaseBit then "1" else "0"))
+  String.join (w.pools.zipIdx.map fun (p, i) =>
+    (if p.slotBit ((w.cfgs[i]?.map (·.size0)).getD .inf) then "1" else "0") ++ (if p.phaseBit then "1" else "0"))
 
 end Taskpool
